@@ -37,7 +37,8 @@ type Model struct {
 	Funcs []*ssa.Function // all library functions with bodies
 
 	// units (functions by role)
-	ClaimSet    []*ssa.Function // contain claim.Store(true)
+	ClaimSet    []*ssa.Function // own the critical section containing claim.Store(true)
+	ClaimStoreFns []*ssa.Function // contain claim.Store(true)
 	ClaimClear  []*ssa.Function // contain claim.Store(false), constructor excluded
 	StopCores   []*ssa.Function // claim-clear units that also invoke the election cancel
 	StopUnits   []*ssa.Function // stop cores and the exported methods that reach one
@@ -569,7 +570,7 @@ func (m *Model) buildUnits() {
 			}
 		}
 		if setsTrue {
-			m.ClaimSet = append(m.ClaimSet, f)
+			m.ClaimStoreFns = append(m.ClaimStoreFns, f)
 		}
 		if setsFalse && !m.isCtorCode(f) {
 			m.ClaimClear = append(m.ClaimClear, f)
@@ -579,6 +580,25 @@ func (m *Model) buildUnits() {
 			} else {
 				m.DemoteUnits = append(m.DemoteUnits, f)
 			}
+		}
+	}
+	// claim-set units: the function that owns the critical section in which the claim is set -
+	// the storing function itself, or, if that is an unexported helper with a single call site
+	// (the section split into phases), the function it was split out of
+	for _, f := range m.ClaimStoreFns {
+		owner := f
+		for i := 0; i < 4; i++ {
+			if obj := owner.Object(); owner.Parent() != nil || (obj != nil && obj.Exported()) {
+				break
+			}
+			sites := m.callers[owner]
+			if len(sites) != 1 || sites[0].IsGo || sites[0].IsDef {
+				break
+			}
+			owner = sites[0].Caller
+		}
+		if !containsFn(m.ClaimSet, owner) {
+			m.ClaimSet = append(m.ClaimSet, owner)
 		}
 	}
 	// stop units: the stop cores (clear the claim and cancel the election) and the API
